@@ -141,6 +141,24 @@ Definition separated (o : wopts) (toks : list (list N)) : Prop :=
     wo_spacer o <> [] \/
     exists l, field_width fmt_pi o = Some l /\ (List.length (nth j toks []) < l)%nat.
 
+(* executable form *)
+Definition separatedb (o : wopts) (toks : list (list N)) : bool :=
+  nonempty (wo_spacer o) ||
+  match field_width fmt_pi o with
+  | Some l => forallb (fun t => Nat.ltb (List.length t) l) (tl toks)
+  | None => false
+  end.
+
+Lemma separatedb_sound o toks : separatedb o toks = true -> separated o toks.
+Proof using fmt_pi.
+  clear fmtv. unfold separatedb, separated. intros H j Hj. apply orb_true_iff in H as [H|H].
+  - left. intros E. rewrite E in H. discriminate H.
+  - right. destruct (field_width fmt_pi o) as [l|]; [|discriminate H]. exists l. split; [reflexivity|].
+    destruct toks as [|t0 ts]; [cbn [List.length] in Hj; lia|]. cbn [tl] in H.
+    destruct j as [|j]; [lia|]. cbn [nth List.length] in *.
+    rewrite forallb_forall in H. apply Nat.ltb_lt. apply H. apply nth_In. lia.
+Qed.
+
 Lemma pad_of_space o j v :
   forallb is_space (wo_lhs_spacer o) = true -> forallb is_space (wo_spacer o) = true ->
   forallb is_space (pad_of o j v) = true.
@@ -228,8 +246,8 @@ Proof. induction row as [|c row IH]; intros j; [reflexivity|]. cbn [row_toks_fro
 
 Lemma row_toks_from_nth o nt : forall row j k c,
   nth_error row k = Some c -> nth k (row_toks_from o nt j row) [] = field_tok o nt (j + k) c.
-Proof.
-  induction row as [|c0 row IH]; intros j k c H; [destruct k; discriminate H|].
+Proof using fmtv.
+  clear fmt_pi. induction row as [|c0 row IH]; intros j k c H; [destruct k; discriminate H|].
   destruct k as [|k]; cbn [nth_error] in H; cbn [row_toks_from nth].
   - injection H as ->. rewrite Nat.add_0_r. reflexivity.
   - rewrite (IH (S j) k c H). f_equal. lia.
@@ -240,7 +258,7 @@ Proof. apply row_toks_from_length. Qed.
 
 Lemma row_toks_nth o nt row j c :
   nth_error row j = Some c -> nth j (row_toks o nt row) [] = field_tok o nt j c.
-Proof. intros H. unfold row_toks. rewrite (row_toks_from_nth o nt row 0 j c H). reflexivity. Qed.
+Proof using fmtv. intros H. unfold row_toks. rewrite (row_toks_from_nth o nt row 0 j c H). reflexivity. Qed.
 
 (* the written line of a row *)
 Definition row_line (o : wopts) (nt : list N) (row : list cell) : list N :=
@@ -375,6 +393,12 @@ Proof.
   rewrite transpose_n_nth by exact Hj. apply map_map.
 Qed.
 
+(* cell i of column j is the numeric cell of token j of row i *)
+Lemma cols_of_cell c T i j toks : (j < c)%nat ->
+  nth_error T i = Some toks ->
+  nth_error (nth j (cols_of c T) []) i = Some (mk_num fhex (nth j toks [])).
+Proof. intros Hj Hi. rewrite cols_of_nth by exact Hj. rewrite nth_error_map, Hi. reflexivity. Qed.
+
 (* one physical line per row: both engines and the sniffer *)
 Theorem engines_of_tokens subs c body T :
   (0 < c)%nat -> T <> [] ->
@@ -442,6 +466,29 @@ Variable fstr : list N -> list N.
 (* a token the writer may print: non-empty, no white space, float() reads it *)
 Definition num_tok (t : list N) : Prop := good_tok t /\ is_float_tok fhex t = true.
 
+Definition num_tokb (t : list N) : bool := nonempty t && nosp t && is_float_tok fhex t.
+
+Lemma num_tokb_sound t : num_tokb t = true -> num_tok t.
+Proof.
+  unfold num_tokb. intros H. apply andb_true_iff in H as [H H3]. apply andb_true_iff in H as [H1 H2].
+  split; [split|]; try assumption. intros ->. discriminate H1.
+Qed.
+
+Lemma num_tok_matrixb (T : list (list (list N))) :
+  forallb (forallb num_tokb) T = true -> Forall (Forall num_tok) T.
+Proof.
+  intros H. apply Forall_forall. intros r Hr. apply Forall_forall. intros t Ht.
+  rewrite forallb_forall in H. specialize (H r Hr). rewrite forallb_forall in H.
+  apply num_tokb_sound. apply H. exact Ht.
+Qed.
+
+Lemma separated_matrixb o (T : list (list (list N))) :
+  forallb (separatedb fmt_pi o) T = true -> Forall (separated fmt_pi o) T.
+Proof.
+  intros H. apply Forall_forall. intros r Hr. rewrite forallb_forall in H.
+  apply separatedb_sound. apply H. exact Hr.
+Qed.
+
 Lemma tok_matrix_shape o nt rows c :
   Forall (fun row : list cell => List.length row = c) rows ->
   Forall (fun r : list (list N) => List.length r = c) (tok_matrix fmtv o nt rows).
@@ -449,6 +496,17 @@ Proof.
   intros H. unfold tok_matrix. apply Forall_forall. intros r Hin.
   apply in_map_iff in Hin as (row & <- & Hrow). rewrite row_toks_length.
   rewrite Forall_forall in H. apply H. exact Hrow.
+Qed.
+
+(* sample (i, j) comes back as the numeric cell of exactly the text that was written for it *)
+Theorem roundtrip_cell o nt rows c i j row cell :
+  (j < c)%nat -> nth_error rows i = Some row -> nth_error row j = Some cell ->
+  nth_error (nth j (cols_of fhex c (tok_matrix fmtv o nt rows)) []) i =
+  Some (mk_num fhex (field_tok fmtv o nt j cell)).
+Proof using fmtv fhex.
+  intros Hj Hi Hc. rewrite (cols_of_cell fhex c _ i j (row_toks fmtv o nt row) Hj).
+  - rewrite (row_toks_nth fmtv o nt row j cell Hc). reflexivity.
+  - unfold tok_matrix. rewrite nth_error_map, Hi. reflexivity.
 Qed.
 
 Theorem data_roundtrip o nt subs rows c rts eol :
